@@ -231,6 +231,45 @@ def run(chk):
         chk.ob('C13-F', '%s passes everything utils computed (%d values) to the constructor' % (fq, want), ok, '', fi.loc,
                key='C13-F|factory|%s' % fq)
 
+    # ---- E: conversion failures surface as ValueError, which is what the TOLERANT fallback catches
+    chk.rule('C13-E', 'every exception a value conversion can raise is turned into ValueError before it reaches datatype_factory, '
+                      'whose only fallback handler is `except ValueError` (STRICT re-raises, TOLERANT keeps the text as ST)')
+    df = ix.func('factories.datatype_factory')
+    hv = [h for n in own_nodes(df.node) if isinstance(n, ast.Try) for h in n.handlers if h.type is not None and norm(h.type) == 'ValueError']
+    ok = False
+    if hv:
+        h = hv[0]
+        reraise = any(isinstance(x, ast.If) and 'is_strict' in norm(x.test) and any(isinstance(y, ast.Raise) for y in x.body) for x in h.body)
+        fallback = any(isinstance(x, ast.Return) and "factories['ST']" in norm(x.value) for x in h.body)
+        ok = reraise and fallback
+    chk.ob('C13-E', 'datatype_factory: ValueError is re-raised under STRICT and becomes an ST value under TOLERANT', ok, '', df.loc,
+           key='C13-E|fallback')
+    nf = ix.func('factories.numeric_factory')
+    ok = any(isinstance(n, ast.ExceptHandler) and n.type is not None and 'InvalidOperation' in norm(n.type) and
+             any(isinstance(x, ast.Raise) and norm(x.exc).startswith('ValueError(') for x in ast.walk(n)) for n in own_nodes(nf.node))
+    chk.ob('C13-E', 'numeric_factory maps decimal.InvalidOperation to ValueError', ok,
+           'Decimal(value) raises InvalidOperation for non-numeric text; unmapped it escapes the TOLERANT fallback', nf.loc, key='C13-E|NM')
+    sf = ix.func('factories.sequence_id_factory')
+    ok = any(isinstance(n, ast.Call) and norm(n.func) == 'int' for n in own_nodes(sf.node)) and not any(
+        isinstance(n, ast.ExceptHandler) and n.type is not None and 'ValueError' in norm(n.type) and
+        not any(isinstance(x, ast.Raise) for x in ast.walk(n)) for n in own_nodes(sf.node))
+    chk.ob('C13-E', 'sequence_id_factory lets int()\'s ValueError through (or re-raises one)', ok, '', sf.loc, key='C13-E|SI')
+    dof = ix.func('utils._datetime_obj_factory')
+    ok = any(isinstance(n, ast.ExceptHandler) and n.type is not None and norm(n.type) == 'ValueError' and
+             any(isinstance(x, ast.Raise) and norm(x.exc).startswith('ValueError(') for x in ast.walk(n)) for n in own_nodes(dof.node)) or \
+        not any(isinstance(n, ast.ExceptHandler) for n in own_nodes(dof.node))
+    chk.ob('C13-E', 'strptime failures stay ValueError', ok, '', dof.loc, key='C13-E|strptime')
+    for fq in ('utils._get_date_format', 'utils._get_timestamp_format', 'utils.get_datetime_info'):
+        fi = ix.func(fq)
+        raised = {norm(x.exc).split('(')[0] for x in own_nodes(fi.node) if isinstance(x, ast.Raise) and x.exc is not None}
+        chk.ob('C13-E', '%s refuses with ValueError only' % fq, raised <= {'ValueError'}, 'raises %s' % sorted(raised), fi.loc,
+               key='C13-E|%s' % fq)
+    for clsname in ('NM', 'SI'):
+        fi = ix.func('base_datatypes.%s.__init__' % clsname)
+        raised = {norm(x.exc).split('(')[0] for x in own_nodes(fi.node) if isinstance(x, ast.Raise) and x.exc is not None}
+        chk.ob('C13-E', '%s.__init__ refuses a wrong value type with ValueError' % clsname, raised <= {'ValueError'},
+               'raises %s' % sorted(raised), fi.loc, key='C13-E|%s.__init__' % clsname)
+
     # ---- L
     bdt = ix.cls('base_datatypes.BaseDataType')
 
